@@ -28,21 +28,21 @@ TECH = {
 TEXT = {
  'C01': 'every tree the real readers yield for files produced by independent encoders (export v3/v4 with headers, comments, secondary edges, shuffled lines; brackets in three layouts; discobrackets; TIGER-XML with shuffled attributes/nodes) is snapshot, checked well formed and compared with the spec under the documented meaning of the reader options, incl. cross-format agreement of gf_split/replace_parens; the bracket automaton state is probed at every lexer token (all 26 reachable state/class pairs observed) and all token-class sequences up to length 9/11 are judged by an independent scanner. Held on the executions observed.',
  'C02': 'the text each writer call emits is decoded by independent decoders and must give back sid, tokens, order, labels, edges and dominance (whatever the format carries) plus the export layout obligations, decorations on exactly the right nodes, defaults for None fields, and refusal/skipping of exactly the discontinuous trees by the bracket writer; every subset of the 11 documented options on small trees, random subsets on random trees, 5 formats. Held on the executions observed.',
- 'C03': 'about 800 (quick) / 20 000 (thorough) real command-line conversions: every source x destination pair, A->B->A and A->B->C chains, B->B byte-for-byte idempotence with the tool\'s own reader, utf-8/latin-1/utf-16 on both sides, gzip and directory sources; destination decoded independently and compared on the intersection of what both formats carry. Held on the executions observed.',
+ 'C03': 'about 800 (quick) / 20 000 (thorough) real command-line conversions: every source x destination pair, A->B->A and A->B->C chains, B->B byte-for-byte idempotence with the tool\'s own reader, utf-8/latin-1/utf-16 on both sides, gzip and directory sources; destination decoded independently and compared on the intersection of what both formats carry. The command line must also equal, byte for byte, the composition of the library functions it names (reader with --src-opts, --trans in the order given with --params, writer with --dest-opts) under random subsets of all documented options. Held on the executions observed.',
  'C09': 'grammars from an independent reference extraction (raw and binarized in random modes) and synthetic grammars of enumerated canonical rules are written in PMCFG/RCG/LoPar (+-lex_in_grammar, utf-8/latin-1) through API and CLI and decoded independently: rules, linearizations, counts, lexicon, start symbols, open-class files; RCG re-read with the tool\'s reader and used as input of `treetools grammar`; LoPar must refuse non-context-free grammars. Held on the executions observed.',
  'C17': 'all specifications of up to 3 (quick) / 4 (thorough) parts over a value grid x sizes 0..25/60, 100, 101, 1000 against exact integer arithmetic incl. rejection of malformed, negative, double-rest and oversized specifications; real split runs in all five formats (with/without filter_by_length): each part decodes, holds exactly its share, concatenation equals the unsplit run, and the tool\'s own reader accepts every part. Held on the executions observed.',
- 'C18': '160 (quick) / 2 500 (thorough) sessions of 25/40 interleaved operations with repetition: outputs must not depend on position in the session, must equal the output of the single operation in fresh processes (PYTHONHASHSEED 0/1/random; set-like files as sorted multisets), two alternately advanced readers must equal separate reads, A+B results must be the concatenation/sum, no global state other than the node-id counter and the two terminal-file caches may change, and no operation may open another operation\'s files. Held on the executions observed.',
+ 'C18': '160 (quick) / 2 500 (thorough) sessions of 25/40 interleaved operations with repetition: outputs must not depend on position in the session, must equal the output of the single operation in fresh processes (PYTHONHASHSEED 0/1/random; set-like files as sorted multisets), two alternately advanced readers must equal separate reads, A+B results must be the concatenation/sum, new module-level state widens the probes (every operation repeated at the end and compared with a fresh process) but is not itself a verdict, no operation may open another operation\'s files, twin operations (same input, other parameters) share a session, a pipeline gives the same output with and without another reader call and whether it streams or reads ahead. Held on the executions observed.',
  'C04': 'every call of a structural transformation made while driving 8 000 (quick) / 300 000 (thorough) prerequisite-respecting sequences of up to 5/7 steps, plus every transformation alone on all shapes up to 4/5 tokens, is checked: returned node is a parentless root of a well-formed tree, words/POS unchanged (modulo + concatenation), label multiset as documented per transformation. Held on the executions observed.',
  'C10': 'each emitted sequence is executed by an automaton that knows only the sentence and the transition names and must consume all tokens, end in one item and rebuild the input tree incl. unary nodes, root, labels and head sides; all binary shapes up to 4/5 tokens x head assignments, random trees to 30 tokens, pipeline-produced trees, the plain writer and `treetools transitions` runs. Held on the executions observed.',
- 'C11': 'result of every call compared with reference semantics (deleted set, pruning, renumbering, insertion positions, substitution, filter decision, returned root, printed report) on trees with punctuation/traces in hostile positions and terminal files with valid/0/negative/len+1/len+2/duplicate/foreign entries. Held on the executions observed.',
- 'C13': 'state predicates of the three docstrings on the result plus the frame condition (only (paired) punctuation tokens change parent; tree stays well formed) for all shapes up to 4/5 tokens x all punctuation placements and random trees with punctuation density 0-100 %, +-root_attach, +-relc. Held on the executions observed.',
- 'C14': 'binarize: arity <= 2, added nodes labelled @+parent label without co-index (or bare), splice-out restores the input, unmarked wide trees rejected; collapse equals the reference, leaves no unary node; uncollapse(collapse(t)) returns a parentless root equal to t; arity 1..8 x head position sweep + random. Held on the executions observed.',
- 'C15': 'after either marker exactly one head child per constituent, root unmarked; NeGra heuristic recomputed from snapshot edges; for both presets every parent category with child sequences in which exactly one child is listed (random case, -GF/-n/=n decorations); invalid configurations must raise ValueError. Held on the executions observed.',
- 'C05': 'every boyd_split and raising execution of the workload is compared node for node with a set-based reference (one node per block with block numbers and a unique head block; head-run kept, rest floated) and the result is checked continuous with tokens and label multiset unchanged. All shapes up to 5/6 tokens x head assignments plus random trees to 40 tokens, gap degree to n/2, three head sources, +-root_attach. Held on the executions observed.',
+ 'C11': 'result of every call compared with reference semantics (deleted set, pruning, renumbering, insertion positions, substitution, filter decision, returned root, printed report) on trees with punctuation/traces in hostile positions and terminal files with valid/0/negative/len+1/len+2/duplicate/foreign entries. Also judged inside random prerequisite-respecting sequences of other transformations on the same live tree (vt/pipeline.py) and on trees built by the repository readers. Held on the executions observed.',
+ 'C13': 'state predicates of the three docstrings on the result plus the frame condition (only (paired) punctuation tokens change parent; tree stays well formed) for all shapes up to 4/5 tokens x all punctuation placements and random trees with punctuation density 0-100 %, +-root_attach, +-relc. Also judged inside random prerequisite-respecting sequences of other transformations on the same live tree (vt/pipeline.py) and on trees built by the repository readers. Held on the executions observed.',
+ 'C14': 'binarize: arity <= 2, added nodes labelled @+parent label without co-index (or bare), splice-out restores the input, unmarked wide trees rejected; collapse equals the reference, leaves no unary node; uncollapse(collapse(t)) returns a parentless root equal to t; arity 1..8 x head position sweep + random. Also judged inside random prerequisite-respecting sequences of other transformations on the same live tree (vt/pipeline.py) and on trees built by the repository readers. Held on the executions observed.',
+ 'C15': 'after either marker exactly one head child per constituent, root unmarked; NeGra heuristic recomputed from snapshot edges; for both presets every parent category with child sequences in which exactly one child is listed (random case, -GF/-n/=n decorations); invalid configurations must raise ValueError. Also judged inside random prerequisite-respecting sequences of other transformations on the same live tree (vt/pipeline.py) and on trees built by the repository readers. Held on the executions observed.',
+ 'C05': 'every boyd_split and raising execution of the workload is compared node for node with a set-based reference (one node per block with block numbers and a unique head block; head-run kept, rest floated) and the result is checked continuous with tokens and label multiset unchanged. All shapes up to 5/6 tokens x head assignments plus random trees to 40 tokens, gap degree to n/2, three head sources, +-root_attach. Also judged inside random prerequisite-respecting sequences of other transformations on the same live tree (vt/pipeline.py) and on trees built by the repository readers. Held on the executions observed.',
  'C06': 'the grammar/lexicon delta of every extract call equals one (rule, linearization, vertical context) occurrence per constituent and one lexicon occurrence per token as computed from a set-based model, the stored linearization is re-applied to the child blocks, and treebank-level totals (counts per LHS, fan-outs, context-freeness) are compared with the spec. Random treebanks with repeated rules. Held on the executions observed.',
  'C07': 'for every rule handed to binarize_rule the recorded labels must name a chain in the returned grammar whose stored linearizations compose (symbolic evaluation) to the original yield with consistent fan-outs; deterministic mode is un-binarized and compared with the input; reorderings must be pure renamings. Complete canonical-rule sweep (rank<=4, <=6/7 variables) + extracted grammars, deterministic and 32 Markov modes x 2 reorderings. Held on the executions observed.',
  'C08': 'per-nonterminal count sums and per-symbol flow conservation are checked on the treebank grammar and on every binarized grammar (deterministic + Markov v,h 0..3 +-nofanout, both reorderings) against node/token/root counts known from the treebank spec. Held on the executions observed.',
- 'C12': 'the parent of every node after every root_attach execution equals a set-based reference of the docstring; nothing but root children moves; fields untouched. All shapes up to 5/6 tokens plus random trees with 1..9 root children. Held on the executions observed.',
+ 'C12': 'the parent of every node after every root_attach execution equals a set-based reference of the docstring; nothing but root children moves; fields untouched. All shapes up to 5/6 tokens plus random trees with 1..9 root children. Also judged inside random prerequisite-respecting sequences of other transformations on the same live tree (vt/pipeline.py) and on trees built by the repository readers. Held on the executions observed.',
  'C16': 'gap degree, blocks, tree gap degree, continuous reordering are compared with set-based runs on every node; GapDegree/PosTags/SentenceCount totals via API and via real `treetools treeanalysis` processes; agreement of the three discontinuity notions per tree. Held on the executions observed.',
  'C19': 'every evaluation of children/terminals/preorder/postorder/siblings/lca/dominance/levels/export numbering made during the workload (incl. the internal ones) is compared with a set-based model; all unordered tree shapes up to 5 (quick) / 6 (thorough) tokens with shuffled child lists plus random trees to 40 tokens. Held on the executions observed, not a proof.',
  'C20': 'format(parse(s)) == s (modulo the two documented default literals), exact removal of each emptied component, trace recognition, separator handling and get_label decorations are checked on every string over a 9-letter alphabet (letters, digits 1 and 0, dash, equals, hash, apostrophe, asterisk) up to length 6 (quick) / 7 (thorough) and on structured random labels with known parts. Held on the executions observed.',
